@@ -31,6 +31,9 @@ def rand_field(rng, depth=2):
         v = rng.random() < 0.5; return ("B1" if v else "B0"), v
     if k == 8:
         v = rng.choice([0, 1, 1700000000, -1, 253402300799]); return "T%d" % v, v
+    if k == 9 and rng.random() < 0.25:
+        # slices and maps that were never made (the zero value of such a field): an empty array / an empty hash, not null
+        return rng.choice([("l", []), ("y", []), ("m", {}), ("o", {})])
     if k == 9:   # typed slice of a supported element kind
         kind = rng.choice(["s", "i", "i64", "f", "b", "t", "i32"])
         n = rng.randint(0, 4)
